@@ -122,3 +122,12 @@ Definition debug_expected (c : rcase) (ob : obs) (exp : option (list (str * diag
                         filter (fun d => negb (existsb (pdiag_eqb d) (vr_diags m))) ds)
    | _ => ([], [])
    end).
+
+(* C04: on arbitrary input the run ends with a report or a readable error, never
+   a panic / abort / timeout; the model (run on the comment spans the grammar
+   produced) must predict the same outcome *)
+Definition no_crash (lo : lobs) (ro : obs) : bool :=
+  match lo with LObsPanic => false | _ => match ro with ObsPanic => false | _ => true end end.
+
+Definition check_robust (c : rcase) (co : cobs) (lo : lobs) (ro : obs) (cli_ok : bool) : N :=
+  verdict (full_agrees c co lo ro) (no_crash lo ro && cli_ok) (full_missed c).
